@@ -72,8 +72,8 @@ CHECKS = {
         quick=NATIVE,
         thorough=NATIVE + [("rel", 1.0, {"exhaustive3": "1"}), ("asan", 0.1), ("msan", 0.1)],
         custom="c05_depth_probe",
-        rule="faults = hostile inputs: (a) all byte strings of length 0..2 per type, (b) valid encodings tampered at a field the reference decoder's annotated parse identifies (chunk size, count, length, tag, position byte, version, constructor index, string id), chunk surgery, splices, bit flips, overwrites with varint edge encodings, truncation, (c) random bytes, (d) primitive read sequences with counts {0, 1, remaining, remaining+1, usize::MAX, usize::MAX - pos + k}; every case counts as non-trivial (any outcome other than Ok/Err within budget is a violation); distinct by (type, input)",
-        floors={"any": {"types_with_exhaustive_short_inputs": 1000, "outcome:Err": 100000, "outcome:Ok": 10000, "hostile_op_sequences": 10000}},
+        rule="faults = hostile inputs: (a) all byte strings of length 0..2 per type, (b) valid encodings tampered at a field the reference decoder's annotated parse identifies (chunk size, count, length, tag, position byte, version, constructor index, string id), chunk surgery, splices, bit flips, overwrites with varint edge encodings, truncation, (c) random bytes, (d) primitive read sequences with counts {0, 1, remaining, remaining+1, usize::MAX, usize::MAX - pos + k}; (e) tampered encodings read by client types whose hand-written codec survives a failing nested decode (Tolerant<T> fields in evolved records and constructors, same / older / newer version of the field): the library regains control after its own error; every case counts as non-trivial (any outcome other than Ok/Err within budget is a violation); distinct by (type, input)",
+        floors={"any": {"types_with_exhaustive_short_inputs": 1000, "outcome:Err": 100000, "outcome:Ok": 10000, "hostile_op_sequences": 10000, "tolerant:nested_failure_survived": 1000}},
         assumptions=["each non-zero-width element consumes at least one input byte, so len + 65536 sequence items bounds every legitimate decode"],
     ),
     "C06": dict(
@@ -225,8 +225,8 @@ CHECKS = {
         quick=[("dbg", 1.0), ("asan", 1.0)],
         thorough=[("dbg", 1.0), ("asan", 1.0), ("msan", 0.3), ("miri", 0.02, {"shards": 16})],
         custom="c19_witnesses",
-        rule="part 1: one case per witness; part 2: (type, input) pairs through the unsafe decode paths, distinct by (type, input)",
-        floors={"any": {"witnesses_rejected_by_the_compiler": 6, "negative_controls_clean": 2, "types_with_unsafe_decode_paths": 50}},
+        rule="part 1: one case per witness; part 2: (type, input) pairs through the unsafe decode paths, plus tampered encodings read by lenient client codecs (a nested decode fails, the client carries on) from allocations of exactly the input length, distinct by (type, input)",
+        floors={"any": {"witnesses_rejected_by_the_compiler": 6, "negative_controls_clean": 2, "types_with_unsafe_decode_paths": 50, "tolerant:nested_failure_survived": 1000}},
     ),
 }
 
